@@ -378,9 +378,21 @@ def check_convert_value(val: str, char: Characteristic) -> Any:
                 offset = Decimal(char.minValue if char.minValue is not None else 0)
                 min_step = Decimal(char.minStep)
 
-                # We use to_integral_value() here rather than round as it respsects
-                # ctx.rounding
-                val = offset + (((val - offset) / min_step).to_integral_value() * min_step)
+                if char.format in INTEGER_TYPES and all(
+                    d == d.to_integral_value() for d in (val, offset, min_step)
+                ):
+                    # Integer characteristics go up to 2**64 - 1 and do not fit in six
+                    # significant digits: snap them to the step grid with exact integer
+                    # arithmetic (same rule: nearest step, ties away from zero).
+                    distance, step = int(val) - int(offset), abs(int(min_step))
+                    steps, rest = divmod(abs(distance), step)
+                    if 2 * rest >= step:
+                        steps += 1
+                    val = Decimal(int(offset) + (steps * step if distance >= 0 else -steps * step))
+                else:
+                    # We use to_integral_value() here rather than round as it respsects
+                    # ctx.rounding
+                    val = offset + (((val - offset) / min_step).to_integral_value() * min_step)
 
         if char.format in INTEGER_TYPES:
             val = int(val.to_integral_value())
